@@ -90,6 +90,10 @@ func main() {
 		mappers()
 	case "options":
 		options()
+	case "registry":
+		registry()
+	case "registry-one":
+		registryOne(os.Args[2:])
 	case "mapper-one":
 		// replay of one witness WITHOUT recover: exit status and stderr are the observation
 		mapperOne(os.Args[2:])
